@@ -27,6 +27,7 @@ char **environ;
 static void fault(int e)
 {
   g.err = e;
+  g.last_fault = e;
   if (g.faults == 0) {
     g.first_errno = e;
   }
@@ -79,6 +80,15 @@ void ghost_init(void)
   g.nonblock = nondet_uint() & g.open;
   g.rd = nondet_uint() & g.open;
   g.wr = nondet_uint() & g.open;
+  /* arbitrary object identities behind the descriptors (4 x 8 bytes) */
+  {
+    unsigned long w[4];
+    w[0] = nondet_ulong();
+    w[1] = nondet_ulong();
+    w[2] = nondet_ulong();
+    w[3] = nondet_ulong();
+    memcpy(g.obj, w, sizeof(g.obj));
+  }
   g.now = nondet_long();
   __CPROVER_assume(g.now > ((int64_t) 1 << 32) && g.now < ((int64_t) 1 << 52));
   g.err = nondet_int(); /* errno: stale value of some earlier call */
@@ -621,6 +631,8 @@ int verif_execvp(const char *file, char *const argv[])
 {
   os_call();
   V_ASSERT("C12/os.exec.child_only", g.in_child);
+  /* reachability probe: must FAIL in the harnesses that list it (spec must_fail) */
+  __CPROVER_assert(0, "reach/exec");
 
   V_ASSERT("C10/exec.stdin_is_requested_object",
            IS_OPEN(0) && g.obj[0] == gc.want_obj[0]);
@@ -680,15 +692,21 @@ int verif_execvp(const char *file, char *const argv[])
 void verif__exit(int code)
 {
   os_call();
+  __CPROVER_assert(0, "reach/_exit");
   V_ASSERT("C12/os._exit.child_only", g.in_child);
   /* C04: a child that gives up before exec tells the parent why, once, with a
      positive errno — the cause of the first failure */
   V_ASSERT("C04/child.failure_reported_once", g.child_reports == 1);
   V_ASSERT("C04/child.report_is_positive_errno", g.child_report > 0);
-  /* the first failed call's errno, or EMFILE for the descriptor-limit refusal
-     (the only failure that is not a failed call) */
-  V_ASSERT("C04/child.report_is_real_cause",
-           g.child_report == (g.faults > 0 ? g.first_errno : EMFILE));
+  /* the child gives up at the first failure it does not ignore: the report is
+     the errno of the call that just failed - or EMFILE when it refused to close
+     more than 1 Mi descriptors (the only failure that is not a failed call) */
+  {
+    bool refusal = gc.cfg_rlim_cur > 1048577UL;
+    V_ASSERT("C04/child.report_is_real_cause",
+             (g.faults > 0 && g.child_report == g.last_fault) ||
+                 (refusal && g.child_report == EMFILE));
+  }
   V_ASSERT("C04/child.no_exec_after_failure", !g.execd);
   g.exit_code = code;
   g.exited = true;
@@ -755,7 +773,10 @@ int verif_pthread_sigmask(int how, const sigset_t *set, sigset_t *oldset)
     if (g.faults == 0) {
       g.first_errno = e;
     }
-    g.faults++;
+    g.last_fault = e;
+    if (g.faults < 1000) {
+      g.faults++;
+    }
     return e;
   }
   /* like the kernel: the new set is read before the old one is stored (the
